@@ -36,7 +36,10 @@ Print Assumptions C12_heals.
 Theorem C12_structure :
   tracker_spawn_bracketed_by_sigmask = true /\ ensure_running_relaunches_under_lock = true
   /\ maybe_unlink_ensures_running = true /\ sig_safe = true
-  /\ child_installs_tracker_handle_before_main_module = true.
+  /\ child_installs_tracker_handle_before_main_module = true
+  (* whatever the tracker uses to report a request it cannot serve is guarded: a report that raises (a warning under -W error, which
+     the tracker inherits) would end the tracker -- and run its end-of-life sweep -- while its tree is alive *)
+  /\ tracker_request_loop_guards_every_report_it_makes = true.
 Proof. repeat split; reflexivity. Qed.
 Print Assumptions C12_structure.
 Example C12_example :
